@@ -156,6 +156,11 @@ class Frame(ABC):
     def assign_to(self, device: PhysicalDevice) -> None:
         """Assign device to the frame."""
         self._handler = device
+        if self._message is not None:
+            # Data decoded before the device was known (e.g. for the debug
+            # log) lack everything that depends on it, such as the regulator
+            # data schema; decode the message again on the next access.
+            self._data = None
 
     @property
     def handler(self) -> PhysicalDevice | None:
